@@ -11,7 +11,10 @@ SPEC = {'level': 'exploration',
                 rule='operation histories over a colliding address pool; non-trivial = >=12 ops, both tables populated, >=1 round trip, multi-reference address or tried collision'),
             gen('vh_c37', 'up_addrman', 1500, 30000, rule='upstream addrman operation fuzz target with consistency checks (supplementary)'),
             gen('vh_c37', 'up_addrman_serdeser', 100, 2000, rule='upstream fill + serialize/deserialize equality (supplementary)'),
-            gen('vh_c37', 'up_data_stream_addr_man', 3000, 60000, rule='upstream loader on arbitrary bytes (supplementary)')]}
+            gen('vh_c37', 'up_data_stream_addr_man', 3000, 60000, rule='upstream loader on arbitrary bytes (supplementary)'),
+        # coverage-guided libFuzzer campaign on the same target (thorough tier only; fz tree = g++ trace-pc + covshim)
+        fuzz('vh_c37', 'c37_addrman', 300, max_len=900),
+    ]}
 
 META = {'level_text': 'Generated operation histories (add/good/attempt/connected/collision resolution with mock-time jumps/select/getaddr/serialize-reload with same or '
                'other asmap, reference-count hammer) over a deliberately colliding pool of IPv4/IPv6/Tor/I2P/CJDNS addresses. At every check point the public '
